@@ -17,6 +17,8 @@ class LoopSpec:
     ghost_step: Callable | None = None              # ghost update executed at the end of each iteration
     ghost: dict = field(default_factory=dict)       # ghost arrays owned by the loop: name -> "int->int" | "int->val" | "val->val" | "val->int" | "val->bool"
     ghost_update: dict = field(default_factory=dict)  # name -> (key spec expr, value spec expr), evaluated at iteration end
+    assumed: bool = False                           # the invariant is ASSUMED after the havoc and neither established nor preserved by a proof
+    #                                                 (listed among the assumptions; only the code after the loop is verified against it)
 
 
 @dataclass
